@@ -195,7 +195,8 @@ class C17(runner.Check):
             except Exception:
                 bad = True
         if bad:
-            self._vp(st, d, s, "%r re-parsed as %r" % (s, t2))
+            # classify by the text that failed to survive (the second-trip text when the first trip compared equal)
+            self._vp(st, d, s if not (t2 == t) else repr(t2), "%r re-parsed as %r" % (s, t2))
 
     def _vp(self, st, d, s, text):
         why = "other"
